@@ -56,9 +56,12 @@ CLAIM = {
              "68056473376264876441248487728 in the crate (borrow loop of ops/add.rs unaligned_add) and in the model; okane prints that balance. "
              "Decimal_mul_overflow / Decimal_add_overflow: + - * report Overflow only when the exact result, rounded to an integer, does not "
              "fit 96 bits (for + - outside SubDefectD). Decimal_mul_scale_maximal / Decimal_rescale_maximal: the scale a rounded product keeps "
-             "is the largest at which the rounded mantissa fits (Buf24::rescale, shared with + and -). Not proved: the overflow "
-             "characterisation for division, that ties in + - * go to even (only the half-unit bound), and the Display/from_str round trip "
-             "(checked on the real crate on every run, not proved)."),
+             "is the largest at which the rounded mantissa fits (Buf24::rescale, shared with + and -). Text: Decimal_display_from_str - "
+             "Decimal::from_str(&d.to_string()) returns d (mantissa, scale, sign; a zero printed with a minus sign comes back as plain zero) for "
+             "EVERY representable decimal, through the 64-bit and the 128-bit accumulator phase of parse_str_radix_10 and whichever BIG variant "
+             "the length selects; Decimal_from_str_shape - every text [-]digits[.digits] with at most 28 places whose digits denote a mantissa "
+             "below 2^96 is read as exactly that number (no rounding, no error). Not proved: the overflow characterisation for division, and "
+             "that ties in + - * go to even (only the half-unit bound)."),
     "note": "rust_decimal arithmetic outside its exact range (non-terminating quotients, > 28 places, > 96 bits) is tagged and excluded from value comparison in the expression streams; what it does there is now modelled and proved separately (Props/Decimal.lean). winnow combinator semantics are modelled.",
     "design_ref": "DESIGN.md section 6, C08",
 }
@@ -86,7 +89,8 @@ THEOREMS = ["Okane.C08.C08_eval", "Okane.C08.C08_eval_mut", "Okane.C08.C08_typin
             "Okane.Decimal.Decimal_round_is_roundHalfEven", "Okane.Decimal.Decimal_cmp_val",
             "Okane.Decimal.Decimal_mul_overflow", "Okane.Decimal.Decimal_add_overflow",
             "Okane.Decimal.Decimal_mul_scale_maximal", "Okane.Decimal.Decimal_rescale_maximal",
-            "Okane.Decimal.Decimal_rescale_up_val"]
+            "Okane.Decimal.Decimal_rescale_up_val", "Okane.Decimal.Decimal_display_from_str",
+            "Okane.Decimal.Decimal_from_str_shape"]
 
 EXTRA_IMPORTS = ["Okane.Props.Decimal"]
 
